@@ -1,7 +1,8 @@
 /-
   Driver.OpsC07 — protocol operations for property C07.
 
-  geom   :=  image o0 o1 o2 b00 … b22 s0 s1 s2  |  rect <nX> X… <nY> Y… <nZ> Z…  |  struct <np> x y z …
+  geom   :=  image <U> o0 o1 o2 b00 … b22 s0 s1 s2  |  rect <nX> X… <nY> Y… <nZ> Z…  |  struct <np> x y z …
+  (all coordinates of one line are counted in units of 2^-U; U = fractional bits, chosen by the harness)
   c07mesh  <ex> <ey> <ez> geom                         in-memory classes: ordered points / connectivity
   c07read  <6 extent ints> geom <npf>{name arr} <ncf>{name arr}    reader: content of the field data
   c07mio   <dim> <np> coords… <nb>{type ncells k idx…} <npd>{name arr} <ncd>{name arr×nb}   from_meshio
@@ -36,10 +37,11 @@ def pGeom : P GridGeom := do
   let k ← tok
   match k with
   | "image" => do
+    let U ← pNat
     let o ← pMany pInt 3
     let b ← pMany pInt 9
     let s ← pMany pInt 3
-    pure (.image o (chunk 3 b 3) s)
+    pure (.image U o (chunk 3 b 3) s)
   | "rect" => do
     let x ← pList pInt
     let y ← pList pInt
@@ -52,15 +54,16 @@ def pGeom : P GridGeom := do
   | _ => failure
 
 /-- exactness side conditions of the image formula (vacuous for the other kinds) -/
-def geomExact (ext : List Nat) : GridGeom → Bool
-  | .image o b s => smallDyadic ext o b s &&
-      (locationsIn (ext.map (· + 1))).all (imagePointExact b s)
+def geomExact (lo : List Int) (ext : List Nat) : GridGeom → Bool
+  | .image U o b s => smallDyadic U ext o b s && lo.all (fun l => l.natAbs ≤ 256) &&
+      (locationsIn (ext.map (· + 1))).all (fun it =>
+        imagePointExact U b s (it.map Int.ofNat) && imagePointExact U b s (List.zipWith (· + ·) lo (it.map Int.ofNat)))
   | _ => true
 
 def opMesh : P String := do
   let ext ← pMany pNat 3
   let g ← pGeom
-  let hyp := Spec.gridHyp ext g [] [] && geomExact ext g
+  let hyp := Spec.gridHyp ext g [] [] && geomExact [0, 0, 0] ext g
   let model := match gridMesh ext g with
     | none => "raise"
     | some m =>
@@ -88,9 +91,11 @@ def opRead : P String := do
   match cellsPerDirection extent with
   | none => pure s!"hyp=0 model={model} spec=-"
   | some ext =>
-    let hyp := Spec.gridHyp ext g pfs' cfs && geomExact ext g
-    let spec := showContent (Spec.gridPointContent ext g pfs') (Spec.gridCellContent ext g cfs)
-    pure s!"hyp={showBool hyp} model={model} spec={if hyp then spec else "-"}"
+    let lo := [extent.getD 0 0, extent.getD 2 0, extent.getD 4 0]
+    let wf := Spec.gridHyp ext g pfs' cfs && geomExact lo ext g
+    let off := Spec.imageOffset lo g
+    let spec := showContent (Spec.filePointContent lo ext g pfs') (Spec.fileCellContent lo ext g cfs)
+    pure s!"hyp={showBool (wf && !off)} cls={showBool off} model={model} spec={if wf then spec else "-"}"
 
 def pMio : P MioMesh := do
   let dim ← pNat
